@@ -60,134 +60,173 @@ def constPiecesRepr (S : PrintPrec) (c : Const) (enclosing : Nat) : Except SErr 
   | .str _ => throw .foreign
   | .none => throw .foreign
 
+/-- the operand without the `CommonSubexpression` wrappers around it -/
+def peelCse : Expr → Expr
+  | .cse c _ _ => peelCse c
+  | e => e
+
+/-- `rec_with_force_parens_around`: the base class decides from the node type of the operand;
+`CompileMapper` (bare) first looks through the wrappers around it -/
+def forceWrapG (bare all : Bool) (c : Expr) (x : Pieces) : Pieces :=
+  forceWrap all (if bare then peelCse c else c) x
+
 mutual
 /-- `StringifyMapper.rec(expr, enclosing_prec)` with the constant handler `cf` (a subclass
-overriding `map_constant`): a copy of `strE` that differs in the first case only -/
-def strG (S : PrintPrec) (cf : Const → Nat → Except SErr Pieces) : Expr → Nat → Except SErr Pieces
+overriding `map_constant`) and, when `bare`, the two overrides of `CompileMapper` for common
+subexpressions (the wrapper is printed as its child at the enclosing precedence; the forced
+parentheses look through wrappers): a copy of `strE` that differs in these places only -/
+def strG (S : PrintPrec) (cf : Const → Nat → Except SErr Pieces) (bare : Bool) :
+    Expr → Nat → Except SErr Pieces
   | .const c, enc => cf c enc
   | .var x, _ => pure [.tok (.ident x)]
   | .wildcard, _ => pure [sy "*"]
   | .call f as, _ => do
-      let fp ← strG S cf f S.call
-      let ap ← strGL S cf as S.none
+      let fp ← strG S cf bare f S.call
+      let ap ← strGL S cf bare as S.none
       pure (fp ++ [sy "("] ++ joinWith [sy ",", .sp] ap ++ [sy ")"])
   | .callKw f as ns vs, _ => do
-      let fp ← strG S cf f S.call
-      let ap ← strGL S cf as S.none
-      let vp ← strGL S cf vs S.none
+      let fp ← strG S cf bare f S.call
+      let ap ← strGL S cf bare as S.none
+      let vp ← strGL S cf bare vs S.none
       let kws := (ns.zip vp).map fun p => (.tok (.ident p.1) : Piece) :: sy "=" :: p.2
       pure (fp ++ [sy "("] ++ joinWith [sy ",", .sp] (ap ++ kws) ++ [sy ")"])
   | .subscript a (.tuple cs), enc => do
-      let ap ← strG S cf a S.call
-      let ip := joinWith [sy ",", .sp] (← strGL S cf cs S.none)
+      let ap ← strG S cf bare a S.call
+      let ip := joinWith [sy ",", .sp] (← strGL S cf bare cs S.none)
       pure (parenIf (ap ++ [sy "["] ++ ip ++ [sy "]"]) enc S.call)
   | .subscript a i, enc => do
-      let ap ← strG S cf a S.call
-      let ip ← strG S cf i S.none
+      let ap ← strG S cf bare a S.call
+      let ip ← strG S cf bare i S.none
       pure (parenIf (ap ++ [sy "["] ++ ip ++ [sy "]"]) enc S.call)
   | .lookup a n, enc => do
-      let ap ← strG S cf a S.call
+      let ap ← strG S cf bare a S.call
       pure (parenIf (ap ++ [sy ".", .tok (.ident n)]) enc S.call)
   | .nary .sum cs, enc => do
-      pure (parenIf (joinWith [.sp, sy "+", .sp] (← strGL S cf cs S.sum)) enc S.sum)
+      pure (parenIf (joinWith [.sp, sy "+", .sp] (← strGL S cf bare cs S.sum)) enc S.sum)
   | .nary .prod cs, enc => do
-      pure (parenIf (joinWith [sy "*"] (← strGForceL S cf false cs S.product)) enc S.product)
+      pure (parenIf (joinWith [sy "*"] (← strGForceL S cf bare false cs S.product)) enc S.product)
   | .bin .quot a b, enc => do
-      let x := forceWrap true a (← strG S cf a S.product)
-      let y := forceWrap true b (← strG S cf b S.product)
+      let x := forceWrapG bare true a (← strG S cf bare a S.product)
+      let y := forceWrapG bare true b (← strG S cf bare b S.product)
       pure (parenIf (x ++ [.sp, sy "/", .sp] ++ y) enc S.product)
   | .bin .floordiv a b, enc => do
-      let x := forceWrap true a (← strG S cf a S.product)
-      let y := forceWrap true b (← strG S cf b S.product)
+      let x := forceWrapG bare true a (← strG S cf bare a S.product)
+      let y := forceWrapG bare true b (← strG S cf bare b S.product)
       pure (parenIf (x ++ [.sp, sy "//", .sp] ++ y) enc S.product)
   | .bin .rem a b, enc => do
-      let x := forceWrap true a (← strG S cf a S.product)
-      let y := forceWrap true b (← strG S cf b S.product)
+      let x := forceWrapG bare true a (← strG S cf bare a S.product)
+      let y := forceWrapG bare true b (← strG S cf bare b S.product)
       pure (parenIf (x ++ [.sp, sy "%", .sp] ++ y) enc S.product)
   | .bin .pow a b, enc => do
-      let x ← strG S cf a (S.power + 1)
-      let y ← strG S cf b S.power
+      let x ← strG S cf bare a (S.power + 1)
+      let y ← strG S cf bare b S.power
       pure (parenIf (x ++ [sy "**"] ++ y) enc S.power)
   | .bin .lshift a b, enc => do
-      let x ← strG S cf a (S.shift + 1)
-      let y ← strG S cf b (S.shift + 1)
+      let x ← strG S cf bare a (S.shift + 1)
+      let y ← strG S cf bare b (S.shift + 1)
       pure (parenIf (x ++ [.sp, sy "<<", .sp] ++ y) enc S.shift)
   | .bin .rshift a b, enc => do
-      let x ← strG S cf a (S.shift + 1)
-      let y ← strG S cf b (S.shift + 1)
+      let x ← strG S cf bare a (S.shift + 1)
+      let y ← strG S cf bare b (S.shift + 1)
       pure (parenIf (x ++ [.sp, sy ">>", .sp] ++ y) enc S.shift)
   | .un .bnot a, enc => do
-      pure (parenIf (sy "~" :: (← strG S cf a S.unary)) enc S.unary)
+      pure (parenIf (sy "~" :: (← strG S cf bare a S.unary)) enc S.unary)
   | .un .lnot a, enc => do
-      pure (parenIf (sy "not" :: .sp :: (← strG S cf a S.unary)) enc S.unary)
+      pure (parenIf (sy "not" :: .sp :: (← strG S cf bare a S.unary)) enc S.unary)
   | .nary .bor cs, enc => do
-      pure (parenIf (joinWith [.sp, sy "|", .sp] (← strGL S cf cs S.bor)) enc S.bor)
+      pure (parenIf (joinWith [.sp, sy "|", .sp] (← strGL S cf bare cs S.bor)) enc S.bor)
   | .nary .bxor cs, enc => do
-      pure (parenIf (joinWith [.sp, sy "^", .sp] (← strGL S cf cs S.bxor)) enc S.bxor)
+      pure (parenIf (joinWith [.sp, sy "^", .sp] (← strGL S cf bare cs S.bxor)) enc S.bxor)
   | .nary .band cs, enc => do
-      pure (parenIf (joinWith [.sp, sy "&", .sp] (← strGL S cf cs S.band)) enc S.band)
+      pure (parenIf (joinWith [.sp, sy "&", .sp] (← strGL S cf bare cs S.band)) enc S.band)
   | .nary .lor cs, enc => do
-      pure (parenIf (joinWith [.sp, sy "or", .sp] (← strGL S cf cs S.lor)) enc S.lor)
+      pure (parenIf (joinWith [.sp, sy "or", .sp] (← strGL S cf bare cs S.lor)) enc S.lor)
   | .nary .land cs, enc => do
-      pure (parenIf (joinWith [.sp, sy "and", .sp] (← strGL S cf cs S.land)) enc S.land)
+      pure (parenIf (joinWith [.sp, sy "and", .sp] (← strGL S cf bare cs S.land)) enc S.land)
   | .cmp o a b, enc => do
-      let x ← strG S cf a (S.comparison + 1)
-      let y ← strG S cf b (S.comparison + 1)
+      let x ← strG S cf bare a (S.comparison + 1)
+      let y ← strG S cf bare b (S.comparison + 1)
       pure (parenIf (x ++ [.sp, sy o.sym, .sp] ++ y) enc S.comparison)
   | .ite c t e, enc => do
-      let tp ← strG S cf t S.lor
-      let cp ← strG S cf c S.lor
-      let ep ← strG S cf e S.lor
+      let tp ← strG S cf bare t S.lor
+      let cp ← strG S cf bare c S.lor
+      let ep ← strG S cf bare e S.lor
       pure (parenIf (tp ++ [.sp, sy "if", .sp] ++ cp ++ [.sp, sy "else", .sp] ++ ep) enc S.ifp)
   | .tuple cs, _ => do
-      let ps ← strGL S cf cs S.none
+      let ps ← strGL S cf bare cs S.none
       let body := joinWith [sy ",", .sp] ps
       pure (parens (if cs.length == 1 then body ++ [sy ","] else body))
   | .list cs, _ => do
-      pure (sy "[" :: joinWith [sy ",", .sp] (← strGL S cf cs S.none) ++ [sy "]"])
+      pure (sy "[" :: joinWith [sy ",", .sp] (← strGL S cf bare cs S.none) ++ [sy "]"])
   | .slice cs, enc => do
-      pure (parenIf (joinWith [sy ":"] (← strGSliceL S cf cs)) enc S.none)
+      pure (parenIf (joinWith [sy ":"] (← strGSliceL S cf bare cs)) enc S.none)
   | .nary .min cs, _ => do
-      pure (.tok (.ident "min") :: sy "(" :: joinWith [sy ",", .sp] (← strGL S cf cs S.none) ++ [sy ")"])
+      pure (.tok (.ident "min") :: sy "(" :: joinWith [sy ",", .sp] (← strGL S cf bare cs S.none) ++ [sy ")"])
   | .nary .max cs, _ => do
-      pure (.tok (.ident "max") :: sy "(" :: joinWith [sy ",", .sp] (← strGL S cf cs S.none) ++ [sy ")"])
-  | .cse c _ _, _ => do
-      pure (.tok (.ident "CSE") :: sy "(" :: (← strG S cf c S.none) ++ [sy ")"])
+      pure (.tok (.ident "max") :: sy "(" :: joinWith [sy ",", .sp] (← strGL S cf bare cs S.none) ++ [sy ")"])
+  | .cse c _ _, enc =>
+      -- `CompileMapper.map_common_subexpression` (bare): the child at the ENCLOSING precedence;
+      -- the base class: the display form `CSE(child)`
+      if bare then strG S cf bare c enc
+      else do
+        pure (.tok (.ident "CSE") :: sy "(" :: (← strG S cf bare c S.none) ++ [sy ")"])
   | .nan, _ => pure [.tok (.ident "NaN")]
   | .funcSym, _ => pure [.tok (.ident "FunctionSymbol")]
   | .dotWild _, _ => throw .unsupported
   | .starWild _, _ => throw .unsupported
   | .subst .., _ => throw .unsupported
   | .deriv .., _ => throw .unsupported
-def strGL (S : PrintPrec) (cf : Const → Nat → Except SErr Pieces) :
+def strGL (S : PrintPrec) (cf : Const → Nat → Except SErr Pieces) (bare : Bool) :
     List Expr → Nat → Except SErr (List Pieces)
   | [], _ => pure []
   | c :: cs, enc => do
-      let x ← strG S cf c enc
-      let xs ← strGL S cf cs enc
+      let x ← strG S cf bare c enc
+      let xs ← strGL S cf bare cs enc
       pure (x :: xs)
-def strGForceL (S : PrintPrec) (cf : Const → Nat → Except SErr Pieces) (all : Bool) :
+def strGForceL (S : PrintPrec) (cf : Const → Nat → Except SErr Pieces) (bare : Bool) (all : Bool) :
     List Expr → Nat → Except SErr (List Pieces)
   | [], _ => pure []
   | c :: cs, enc => do
-      let x ← strG S cf c enc
-      let xs ← strGForceL S cf all cs enc
-      pure (forceWrap all c x :: xs)
-def strGSliceL (S : PrintPrec) (cf : Const → Nat → Except SErr Pieces) :
+      let x ← strG S cf bare c enc
+      let xs ← strGForceL S cf bare all cs enc
+      pure (forceWrapG bare all c x :: xs)
+def strGSliceL (S : PrintPrec) (cf : Const → Nat → Except SErr Pieces) (bare : Bool) :
     List Expr → Except SErr (List Pieces)
   | [] => pure []
   | .const .none :: cs => do
-      let xs ← strGSliceL S cf cs
+      let xs ← strGSliceL S cf bare cs
       pure ([] :: xs)
   | c :: cs => do
-      let x ← strG S cf c S.none
-      let xs ← strGSliceL S cf cs
+      let x ← strG S cf bare c S.none
+      let xs ← strGSliceL S cf bare cs
       pure (x :: xs)
+end
+
+mutual
+/-- the tree with every `CommonSubexpression` wrapper erased -/
+def stripCse : Expr → Expr
+  | .cse c _ _ => stripCse c
+  | .nary o cs => .nary o (stripCseL cs)
+  | .bin o a b => .bin o (stripCse a) (stripCse b)
+  | .un o a => .un o (stripCse a)
+  | .cmp o a b => .cmp o (stripCse a) (stripCse b)
+  | .ite c t e => .ite (stripCse c) (stripCse t) (stripCse e)
+  | .call f as => .call (stripCse f) (stripCseL as)
+  | .callKw f as ns vs => .callKw (stripCse f) (stripCseL as) ns (stripCseL vs)
+  | .subscript a i => .subscript (stripCse a) (stripCse i)
+  | .lookup a n => .lookup (stripCse a) n
+  | .slice cs => .slice (stripCseL cs)
+  | .tuple cs => .tuple (stripCseL cs)
+  | .list cs => .list (stripCseL cs)
+  | e => e
+def stripCseL : List Expr → List Expr
+  | [] => []
+  | c :: cs => stripCse c :: stripCseL cs
 end
 
 /-- `CompileMapper()(expr, PREC_NONE)` as pieces -/
 def compilePieces (S : PrintPrec) (e : Expr) : Except SErr Pieces :=
-  strG S (constPiecesRepr S) e S.none
+  strG S (constPiecesRepr S) true e S.none
 
 /-- the source text of the compiled expression -/
 def compileStr (S : PrintPrec) (e : Expr) : Except SErr String := (compilePieces S e).map render
